@@ -34,7 +34,11 @@ func New[T any](ctx context.Context, cap int) (<-chan T, chan<- T) {
 
 	go func() {
 		defer close(eg)
-		defer close(in)
+		defer func() {
+			// the send side is already closed if the sender has ended the stream
+			defer func() { _ = recover() }()
+			close(in)
+		}()
 
 		for {
 			select {
@@ -47,6 +51,10 @@ func New[T any](ctx context.Context, cap int) (<-chan T, chan<- T) {
 
 			case x, ok := <-in:
 				if !ok {
+					for mq.head != nil {
+						eg <- head(mq)
+						deq(mq)
+					}
 					return
 				}
 				enq(&x, mq)
